@@ -10,7 +10,10 @@ stages: explicit  the hand-written configurations named by the property (Explici
         dep       one construct under test (slice, ~, & | ^, Cat, Mux select/data, +, ==, <, If bit / If word) combined
                   with plain bit-to-bit records closing (or not closing) a loop, combinational or registered
         chain     longer paths: up to MaxDrv plain bit-to-bit records over two signals
-        mutants   conflict judged per signal / cycle judged per signal must violate a theorem
+        branch    statements in the branches of one If/Elif/Else or Switch/Case chain (first match wins: branch i depends on
+                  the tests of branches 1..i) together with plain records closing a loop
+        mutants   conflict judged per signal / cycle judged per signal / a branch depending on its own test only must
+                  violate a theorem
 bind:   every state is built with the real amaranth twice: through the Module DSL (`m.d.<dom> +=`, `with m.If`,
         `m.submodules`, Instance / MemoryInstance / IOBufferInstance; rtlil.convert) and through the Fragment API
         (`add_statements`, `add_subfragment`; build_netlist) where the DSL's early per-module check cannot pre-empt the
@@ -44,6 +47,7 @@ INVARIANT CycleIffNotPeelable
 INVARIANT ForwardOnlyNoCycle
 INVARIANT Monotone
 INVARIANT OrderIrrelevant
+INVARIANT ChainPriority
 CHECK_DEADLOCK FALSE
 """
 
@@ -65,11 +69,14 @@ def stages(th):
               ("place2x2", inst('{"child", "sib"}', "W22", "VocabPlaceFew", 2)),
               ("dep", inst('{"chain"}', "W3W22", "VocabDepT", 2, maxrich=1)),
               ("dep2", inst('{"child"}', "W3", "VocabDepQ", 2, maxrich=2)),
-              ("chain", inst('{"child"}', "W22", "VocabChain", 4))]
+              ("chain", inst('{"child"}', "W22", "VocabChain", 4)),
+              ("branch", inst('{"child"}', "W3W22", "VocabBranchT", 2, maxrich=2)),
+              ("branch3", inst('{"top"}', "W3", "VocabBranchQ", 3, maxrich=3))]
     else:
         s += [("place2", inst(ALL_SHAPES, "W3", "VocabPlaceQ", 2)),
               ("dep", inst('{"chain"}', "W3", "VocabDepQ", 2, maxrich=1)),
-              ("chain", inst('{"child"}', "W22", "VocabChain", 3))]
+              ("chain", inst('{"child"}', "W22", "VocabChain", 3)),
+              ("branch", inst('{"child"}', "W3", "VocabBranchQ", 2, maxrich=2))]
     return s
 
 
@@ -140,6 +147,67 @@ def _cond(sigs, c):
     return sigs[c[0]]
 
 
+PAT = {0: "0", 1: "1", 2: "-"}
+
+
+def _emit_chain(m, dsl, sigs, drv, members):
+    """Write the If/Elif/Else or Switch/Case chain shared by the branch records `members` (indices into drv, in
+    program order) into module m (Module DSL) or fragment m (one Switch statement per domain, as the DSL lowers it)."""
+    from amaranth.hdl import Cat
+    from amaranth.hdl import SyntaxError as AmSyntaxError
+    from amaranth.hdl._ast import Switch
+    _, kind, s, tests = drv[members[0]]["c"]
+    nb = len(tests)
+    body = {i: [] for i in range(1, nb + 1)}            # branch -> [(domain, statement)]
+    for j in members:
+        r = drv[j]
+        body[r["c"][0]].append((r["k"], sigs[r["s"]][r["lo"]:r["hi"]].eq(_rhs(sigs, r))))
+    if dsl:
+        def fill(i):
+            try:
+                for k, stmt in body[i]:
+                    m.d[k] += stmt
+            except AmSyntaxError as e:
+                if "Driver-driver conflict" in str(e):
+                    raise _Early(str(e))
+                raise
+        if kind == 1:
+            for i, tst in enumerate(tests, 1):
+                if i == 1:
+                    with m.If(_cond(sigs, tst)):
+                        fill(i)
+                elif tst:
+                    with m.Elif(_cond(sigs, tst)):
+                        fill(i)
+                else:
+                    with m.Else():
+                        fill(i)
+        else:
+            with m.Switch(sigs[s]):
+                for i, pat in enumerate(tests, 1):
+                    if all(p == 2 for p in pat):
+                        with m.Default():
+                            fill(i)
+                    else:
+                        with m.Case("".join(PAT[p] for p in reversed(pat))):
+                            fill(i)
+        return
+    # Fragment API: the lowering the DSL performs, written by hand
+    if kind == 1:
+        conds = [_cond(sigs, tst) for tst in tests if tst]
+        value = Cat(c if len(c) == 1 else c.bool() for c in conds)
+        pats = []
+        for i, tst in enumerate(tests):
+            pats.append(("-" * (len(conds) - 1 - i) + "1" + "-" * i) if tst else None)
+    else:
+        value = sigs[s]
+        pats = [None if all(p == 2 for p in pat) else "".join(PAT[p] for p in reversed(pat)) for pat in tests]
+    for k in DOMAINS:
+        if any(kk == k for i in body for kk, _ in body[i]):
+            m.add_statements(k, [Switch(value, [(pats[i - 1], [st for kk, st in body[i] if kk == k], None)
+                                                for i in range(1, nb + 1)])])
+
+
 def _signals(cfg):
     from amaranth.hdl import Signal
     sigs = [Signal(3, name="x")]
@@ -207,11 +275,18 @@ def build(cfg, route, order=None):
                         extra_ports.append(port)
                         sigs[r["s"]] = buf.i
                     done.add(idx)
+        chain_emitted = False
         for idx in order:
             if idx in done:
                 continue
             r = drv[idx]
             m = mods[r["m"] - 1]
+            if len(r["c"]) == 4:
+                # all branch records of the configuration form one chain, written where its first statement stands
+                if not chain_emitted:
+                    chain_emitted = True
+                    _emit_chain(m, dsl, sigs, drv, [j for j in order if j not in done and len(drv[j]["c"]) == 4])
+                continue
             lhs = sigs[r["s"]][r["lo"]:r["hi"]]
             n = r["hi"] - r["lo"]
             k = r["k"]
@@ -296,7 +371,17 @@ def render(cfg):
         else:
             e = "Mux(%s, x[0:%d], %s)" % (op(r["a"], 1), n, op(r["b"], n))
         c = r["c"]
-        pre = "" if not c else ("If(%s[%d]): " % (names[c[0]], c[1]) if len(c) == 2 else "If(%s): " % names[c[0]])
+
+        def tst(q):
+            return "%s[%d]" % (names[q[0]], q[1]) if len(q) == 2 else names[q[0]]
+        if len(c) == 4 and c[1] == 1:
+            pre = "[" + " / ".join(("If" if j == 0 else "Elif") + "(%s)" % tst(q) if q else "Else" for j, q in enumerate(c[3])) \
+                + "].branch%d: " % c[0]
+        elif len(c) == 4:
+            pre = "[Switch(%s) " % names[c[2]] + " / ".join("Case('%s')" % "".join(PAT[v] for v in reversed(q)) for q in c[3]) \
+                + "].branch%d: " % c[0]
+        else:
+            pre = "" if not c else "If(%s): " % tst(c)
         out.append("m%d.d.%s += %s%s.eq(%s)" % (r["m"], r["k"], pre, lhs, e))
     return "%s ws=%s { %s }" % (cfg["shape"], list(cfg["ws"]), "; ".join(out))
 
@@ -436,6 +521,9 @@ def run(ctx):
     mut1 = inst('{"child"}', "W3", "VocabPlaceFew", 2, mutant="conflict_per_signal")
     ctx.tlc("Drivers", stage="mc/mutant-conflict-per-signal", cfg_text=CFG.format(**mut1), workers=2,
             expect_violation="DisjointNeverConflict")
+    mut3 = inst('{"top"}', "W3", "VocabBranchQ", 1, maxrich=1, mutant="branch_own_test_only")
+    ctx.tlc("Drivers", stage="mc/mutant-branch-own-test-only", cfg_text=CFG.format(**mut3), workers=2,
+            expect_violation="ChainPriority")
     mut2 = inst('{"top"}', "W3", "VocabChain", 2, mutant="cycle_per_signal")
     ctx.tlc("Drivers", stage="mc/mutant-cycle-per-signal", cfg_text=CFG.format(**mut2), workers=2,
             expect_violation="ForwardOnlyNoCycle")
@@ -459,8 +547,11 @@ def run(ctx):
     ctx.assume("a cycle that runs only through dead assignments (always overridden by a later unconditional assignment of the "
                "same module and domain) may be rejected or accepted: amaranth drops leading whole-range unconditional "
                "assignments but keeps partial ones")
-    ctx.assume("not generated (outside the property statement): two primitive outputs on one bit; If/Elif chains (amaranth "
-               "feeds every test of a chain to every branch); signed operands; zero-width I/O ports")
+    ctx.assume("not generated (outside the property statement): two primitive outputs on one bit; signed operands; zero-width "
+               "I/O ports; a branch statement overridden by an unconditional statement of the same driver")
+    ctx.assume("chains (If/Elif/Else, Switch/Case): a statement in branch i depends on the bits tested by branches 1..i (must "
+               "be rejected when that closes a loop); amaranth feeds every bit of the tested value to every branch, so a loop "
+               "only through a LATER test or through a switched bit no pattern looks at may be rejected or accepted")
     ctx.assume("no constant folding was observed in the netlist (s[0].eq(s[0] & 0) is reported as a cycle), so every "
                "generated construct is a structural dependency")
 
